@@ -7,7 +7,11 @@ import subprocess
 
 import vf
 
+PI = ("c04_panic_injection.rs", "one injected panic per run at the k-th user callback (eq, clone, drop, predicate, closure, source iterator), k in 0..16, "
+      "37 operations on capacity-3 containers incl. the derived iterator methods: nothing destroyed twice, no destructor on garbage, containers well-formed afterwards (debug and release)")
 STANDINS = {
+    "C04": [PI],
+    "C02": [PI],
     "C03": [("c03_full_reject.rs", "after the container's own panic has unwound: contents unchanged, usable, rejected key/value destroyed exactly once "
              "(N in 0..=3, 8 Map and 3 Set entry points, 2 slot orders; debug and release)")],
     "C05": [("c03_full_reject.rs", "len() <= capacity() and contents unchanged after the container's own overflow panic (N in 0..=3; debug and release)")],
